@@ -642,7 +642,8 @@ def pairs(draw):
                                      'reorder-keys', 'reorder-keys',
                                      'add-change', 'del-change',
                                      'swap-changes', 'add-file', 'del-file',
-                                     'swap-files']))
+                                     'swap-files', 'move-file', 'move-file',
+                                     'copy-file']))
         changes = u['changes']
 
         # pick a container description
@@ -748,6 +749,29 @@ def pairs(draw):
         elif kind == 'swap-changes' and len(changes) >= 2:
             i = draw(hs.integers(0, len(changes) - 2))
             changes[i], changes[i + 1] = changes[i + 1], changes[i]
+        elif kind == 'move-file' and len(changes) >= 2:
+            # a file crosses the boundary between two changes whose own
+            # sections are equal: another shape
+            i = draw(hs.integers(0, len(changes) - 2))
+            a, b = changes[i], changes[i + 1]
+
+            for tw in (t['changes'][i:i + 2] if len(t['changes']) >
+                       i + 1 else []):
+                tw['attrs'] = {}
+
+            a['attrs'], b['attrs'] = {}, {}
+
+            if a['files']:
+                b['files'].insert(0, a['files'].pop())
+            elif b['files']:
+                a['files'].append(b['files'].pop(0))
+        elif kind == 'copy-file' and changes:
+            # one file becomes an exact copy of a sibling
+            c = draw(hs.sampled_from(changes))
+
+            if len(c['files']) >= 2:
+                k = draw(hs.integers(0, len(c['files']) - 2))
+                c['files'][k + 1] = copy.deepcopy(c['files'][k])
         elif kind in ('add-file', 'del-file', 'swap-files') and changes:
             c = draw(hs.sampled_from(changes))
             files = c['files']
